@@ -539,6 +539,39 @@ Definition opt_tag_eqb (h : N) (p : option N) : bool :=
 
 Definition consumed (bs rest : bytes) : bytes := firstn (length bs - length rest) bs.
 
+(* parseField from "We have unwrapped any explicit tagging at this point": h is the header to match, r the bytes
+   after it, start the suffix at which the element begins, bs the whole input of parseField (returned untouched when
+   the field is skipped) *)
+Definition match_elem (p : fparams) (t : ty) (bs : bytes) (h : hdr) (r start : bytes) : pre :=
+  let '(match_any, utag0, compound_type) := universal_type t in
+  let utag1 :=
+    if utag0 =? TagPrintableString then
+      if t_class h =? 0 then (if is_string_tag (t_tag h) then t_tag h else utag0)
+      else if negb (stringType p =? 0) then stringType p else utag0
+    else utag0 in
+  let utag2 :=
+    if utag1 =? TagUTCTime then
+      if t_class h =? 0 then (if t_tag h =? TagGeneralizedTime then t_tag h else utag1)
+      else if negb (timeType p =? 0) then timeType p else utag1
+    else utag1 in
+  let utag := if pset p then TagSet else utag2 in
+  let implicit := negb (explicit p) && match ptag p with Some _ => true | None => false end in
+  let expected_class :=
+    if implicit && private p then 3 else if implicit && application p then 1
+    else if implicit then 2 else 0 in
+  let expected_tag := if implicit then match ptag p with Some x => x | None => utag end else utag in
+  let match_any_ct := if implicit then false else match_any in
+  if (negb match_any_ct && (negb (t_class h =? expected_class) || negb (t_tag h =? expected_tag)))
+     || (negb match_any && negb (Bool.eqb (t_comp h) compound_type))
+  then match default_value p t with
+       | Some v => PDone v bs
+       | None => PFail
+       end
+  else if blen r <? t_len h then PFail                  (* data truncated *)
+  else let rest := drop (t_len h) r in
+       PBody utag h (take (t_len h) r) rest
+             (consumed start rest).
+
 Definition pre_field (perm : bool) (p : fparams) (t : ty) (bs : bytes) : pre :=
   match bs with
   | [] => match default_value p t with Some v => PDone v [] | None => PFail end
@@ -571,34 +604,7 @@ Definition pre_field (perm : bool) (p : fparams) (t : ty) (bs : bytes) : pre :=
   | inr x => x
   | inl None => PFail
   | inl (Some (h, r, start)) =>
-      let '(match_any, utag0, compound_type) := universal_type t in
-      let utag1 :=
-        if utag0 =? TagPrintableString then
-          if t_class h =? 0 then (if is_string_tag (t_tag h) then t_tag h else utag0)
-          else if negb (stringType p =? 0) then stringType p else utag0
-        else utag0 in
-      let utag2 :=
-        if utag1 =? TagUTCTime then
-          if t_class h =? 0 then (if t_tag h =? TagGeneralizedTime then t_tag h else utag1)
-          else if negb (timeType p =? 0) then timeType p else utag1
-        else utag1 in
-      let utag := if pset p then TagSet else utag2 in
-      let implicit := negb (explicit p) && match ptag p with Some _ => true | None => false end in
-      let expected_class :=
-        if implicit && private p then 3 else if implicit && application p then 1
-        else if implicit then 2 else 0 in
-      let expected_tag := if implicit then match ptag p with Some x => x | None => utag end else utag in
-      let match_any_ct := if implicit then false else match_any in
-      if (negb match_any_ct && (negb (t_class h =? expected_class) || negb (t_tag h =? expected_tag)))
-         || (negb match_any && negb (Bool.eqb (t_comp h) compound_type))
-      then match default_value p t with
-           | Some v => PDone v bs
-           | None => PFail
-           end
-      else if blen r <? t_len h then PFail                  (* data truncated *)
-      else let rest := drop (t_len h) r in
-           PBody utag h (take (t_len h) r) rest
-                 (consumed start rest)
+      match_elem p t bs h r start
   end end end.
 
 (* the non-recursive arms of the type switch *)
